@@ -28,3 +28,4 @@ import TLX.Props.Translated.QuicSess3
 import TLX.Props.Translated.Decrypt2
 import TLX.Props.Translated.Opts
 import TLX.Props.Translated.TlsKeys
+import TLX.Props.Translated.Dsb
